@@ -27,6 +27,7 @@ from . import common as c
 
 SPECIAL = {"open", "write", "flush", "popen", "pwrite"}
 OLD = b"previous content of the output path\n" * 3
+LOLD = b"content of the regular file the output path links to\n" * 3
 OTHER_NAME = "bystander.keep"
 OTHER = b"an unrelated file in the output directory\n"
 
@@ -222,6 +223,7 @@ class Interposer:
         self.fired = False
         self.undo = []
         self.handles = []
+        self.missing = []
 
     # ---- crash / events
     def maybe_crash(self, stage, when):
@@ -276,7 +278,10 @@ class Interposer:
         try:
             raw = inspect.getattr_static(obj, name)
         except AttributeError:
-            raise c.MachineryError("C20 wrapper target %s.%s not found" % (getattr(obj, "__name__", obj), name))
+            # the code under test no longer has this stage function: the stage is then never observed, which the
+            # comparison with the specification reports (a violation of the stage protocol, not a machinery failure)
+            self.missing.append("%s.%s" % (getattr(obj, "__name__", obj), name))
+            return
         if isinstance(raw, classmethod):
             new = classmethod(self.wrap(stage, raw.__func__, primary))
         elif isinstance(raw, staticmethod):
@@ -287,7 +292,10 @@ class Interposer:
 
     def patch_open_deferred(self, mod):
         """mod.deferred_open -> OpenDeferred stage, returns a counting handle"""
-        orig = mod.deferred_open
+        orig = getattr(mod, "deferred_open", None)
+        if orig is None:
+            self.missing.append("%s.deferred_open" % mod.__name__)
+            return
         ip = self
 
         def deferred_open(*a, **k):
@@ -302,7 +310,10 @@ class Interposer:
 
     def patch_write(self, mod, name):
         """serialiser function: 'before'/'mid' are raised from the handle, 'after' here"""
-        orig = getattr(mod, name)
+        orig = getattr(mod, name, None)
+        if orig is None:
+            self.missing.append("%s.%s" % (mod.__name__, name))
+            return
         ip = self
 
         def writer(*a, **k):
@@ -390,8 +401,11 @@ class Interposer:
             import polyply.src.gen_seq as m
             ip = self
             self.patch_func(m, "load_ff_library", "macro_file", primary=False)
-            self.patch_attr(m, "MacroFile", self.wrap("macro_file", m.MacroFile))
-            self.patch_attr(m, "MacroString", self.wrap("macro_str", m.MacroString))
+            for cname, st in (("MacroFile", "macro_file"), ("MacroString", "macro_str")):
+                if hasattr(m, cname):
+                    self.patch_attr(m, cname, self.wrap(st, getattr(m, cname)))
+                else:
+                    self.missing.append("gen_seq." + cname)
             self.patch_func(m, "generate_seq_graph", "graph")
             self.patch_func(m, "_apply_termini_modifications", "termini")
             self.patch_func(m, "_tag_nodes", "labels")
@@ -455,6 +469,7 @@ class World:
             self.path_of[t] = str(p)
             for i in range(1, self.nbk + 1):
                 self.path_of[("b" if t == "out" else "c") + str(i)] = str(p.with_name("#%s.%d#" % (p.name, i)))
+        self.path_of["tgt"] = str(Path(self.names.get("tgt") or str(Path(self.names["out"]).with_name("linked_earlier_result.dat"))))
         self.abs_of = {v: k for k, v in self.path_of.items()}
 
     def setup(self):
@@ -467,7 +482,13 @@ class World:
                 continue
             p = self.run / self.path_of[key]
             p.parent.mkdir(parents=True, exist_ok=True)
-            p.write_bytes(OLD if cont == "old" else bk_bytes(int(cont[2:])))
+            if cont == "link":
+                # relative link to a regular file in the same directory (latest.gro -> run_001.gro)
+                os.symlink(Path(self.path_of["tgt"]).name, p)
+            elif cont == "lold":
+                p.write_bytes(LOLD)
+            else:
+                p.write_bytes(OLD if cont == "old" else bk_bytes(int(cont[2:])))
         if not self.case.get("no_parent"):
             for t in ("out", "out2"):
                 (self.run / self.path_of[t]).parent.mkdir(parents=True, exist_ok=True)
@@ -482,12 +503,14 @@ class World:
         self.inputs = {}
         for p in sorted(self.run.rglob("*")):
             rel = str(p.relative_to(self.run))
-            if p.is_file() and rel not in self.abs_of:
+            if p.is_file() and not p.is_symlink() and rel not in self.abs_of:
                 self.inputs[rel] = hashlib.sha1(p.read_bytes()).hexdigest()
 
     def classify(self, data):
         if data == OLD:
             return "old"
+        if data == LOLD:
+            return "lold"
         for i in range(1, 9):
             if data == bk_bytes(i):
                 return "bk%d" % i
@@ -508,14 +531,28 @@ class World:
         seen_inputs = {}
         for p in sorted(self.run.rglob("*")):
             rel = str(p.relative_to(self.run))
-            if p.is_dir():
+            try:
+                if p.is_symlink():
+                    dest = os.readlink(p)
+                    if rel in self.abs_of and dest == Path(self.path_of["tgt"]).name:
+                        fs[self.abs_of[rel]] = "link"
+                    elif rel in self.abs_of:
+                        fs[self.abs_of[rel]] = "link to " + dest
+                    else:
+                        odd.append("unexpected symbolic link %s -> %s" % (rel, dest))
+                    continue
+                if p.is_dir():
+                    continue
+                data = p.read_bytes()
+            except OSError as exc:      # vanished between listing and reading
+                odd.append("%s unreadable (%s)" % (rel, type(exc).__name__))
                 continue
             if rel in self.abs_of:
-                fs[self.abs_of[rel]] = self.classify(p.read_bytes())
+                fs[self.abs_of[rel]] = self.classify(data)
             elif rel in self.inputs:
-                seen_inputs[rel] = hashlib.sha1(p.read_bytes()).hexdigest()
+                seen_inputs[rel] = hashlib.sha1(data).hexdigest()
             else:
-                odd.append("unexpected file %s (%s)" % (rel, self.classify(p.read_bytes())))
+                odd.append("unexpected file %s (%s)" % (rel, self.classify(data)))
         for rel, h in self.inputs.items():
             if rel not in seen_inputs:
                 odd.append("file %s removed" % rel)
@@ -527,7 +564,8 @@ class World:
         runreal = os.path.realpath(self.run)
         for tmp_path, final, mode in list(DeferredFileWriter().open_files):
             queued.add(os.path.realpath(tmp_path))
-            rel = os.path.relpath(os.path.realpath(str(final)), runreal)
+            final = Path(str(final))      # the queue names a directory entry: do not resolve a link at the last component
+            rel = os.path.relpath(os.path.join(os.path.realpath(final.parent), final.name), runreal)
             try:
                 data = Path(tmp_path).read_bytes()
                 cont = self.classify(data)
@@ -591,7 +629,7 @@ def run_case(case, root, refs):
     from vermouth.file_writer import DeferredFileWriter
     w = World(root, case)
     w.setup()
-    info = {"unplanned": [], "unreached": []}
+    info = {"unplanned": [], "unreached": [], "missing_targets": [], "observer_error": None}
     if DeferredFileWriter().open_files:
         raise c.MachineryError("writer queue not empty at the start of a case")
     cwd = os.getcwd()
@@ -615,7 +653,11 @@ def run_case(case, root, refs):
             events.append(ev)
             ip = Interposer(prog, rn.get("crash"), rn.get("exc", "Exception"), w.snapshot)
             if case.get("instrument", True):
-                ip.install()
+                try:
+                    ip.install()
+                except Exception:   # the code under test has changed shape: observe what can be observed
+                    info["observer_error"] = "installing the wrappers: " + traceback.format_exc()[-800:]
+                info["missing_targets"] += ip.missing
             sys.argv = ["polyply", prog, "-run", str(r)]
             _seed(case.get("seed", 0), r)
             outcome = None
